@@ -92,7 +92,14 @@ pub fn gen_spec(t: &mut Tape) -> Spec {
     let groups = t.below(4);
     for _ in 0..groups {
         let n = gen_depth(t);
-        match t.below(3) {
+        match t.below(4) {
+            3 => {
+                // a short unit of mixed levels repeated (arrays and inline tables alternating, ...)
+                let unit: Vec<Level> = (0..1 + t.below(3)).map(|_| if t.chance(1, 2) { Level::Array } else { Level::Inline { key: 1 + t.below(2) } }).collect();
+                for _ in 0..n.min(150) {
+                    levels.extend(unit.iter().cloned());
+                }
+            }
             0 => levels.extend(std::iter::repeat(Level::Array).take(n)),
             1 => levels.extend(std::iter::repeat(Level::Inline { key: 1 }).take(n)),
             _ => {
@@ -351,6 +358,22 @@ pub fn run(args: Args) -> ! {
     let n = args.tier.pick(1500usize, 40_000usize);
     let mut sm = SplitMix(args.seed ^ 0xC05);
     let mut specs: Vec<Spec> = vec![];
+    // arrays and inline tables alternating (every pairing of the two value constructs)
+    for pairs in [20usize, 39, 40, 41, 60, 79, 80, 100, 300] {
+        for first_array in [true, false] {
+            let mut levels = vec![];
+            for _ in 0..pairs {
+                if first_array {
+                    levels.push(Level::Array);
+                    levels.push(Level::Inline { key: 1 });
+                } else {
+                    levels.push(Level::Inline { key: 1 });
+                    levels.push(Level::Array);
+                }
+            }
+            specs.push(Spec { header: 0, aot: false, key: 1, levels });
+        }
+    }
     // the multiplicative corner cases first
     for k in [2usize, 10, 40, 78, 79] {
         for reps in [5usize, 30, 78, 79] {
